@@ -73,7 +73,33 @@ class SharedEnv:
         raise EngineError('unsupported shared-memory primitive ' + callee)
 
     def h_rmw(self, ex, st, callee, args, fn):
-        raise EngineError('read-modify-write atomics are outside the single-writer model: ' + callee)
+        # a read-modify-write by the single writer: no other thread stores to the segment, so it is its load followed by its store
+        # (the ordering is split: acquire side on the load, release side on the store)
+        k = callee.rsplit('::', 1)[1]
+        if k not in ('fetch_add', 'fetch_sub', 'swap', 'fetch_max', 'fetch_min'):
+            raise EngineError('read-modify-write atomic %s is outside the model' % k)
+        p = _ptr(args[0]); size, ty = self._size_of_generic(ex, callee)
+        o = _order(args[2])
+        ld_o = 'acq' if o in ('acq', 'acqrel', 'sc') else 'rlx'
+        st_o = 'rel' if o in ('rel', 'acqrel', 'sc') else 'rlx'
+        v = self.fresh(ex, 'ld')
+        lo, hi = INTTY[ty]
+        ex.side.append(z3.And(v >= lo, v <= hi))
+        st.trace = st.trace + (Event('load', (p.region, p.off, size, ld_o), v),)
+        n = hi - lo + 1
+        a = args[1]
+        if k == 'fetch_add':
+            new = (v + a - lo) % n + lo
+        elif k == 'fetch_sub':
+            new = (v - a - lo) % n + lo
+        elif k == 'swap':
+            new = a
+        elif k == 'fetch_max':
+            new = z3.If(v >= a, v, a)
+        else:
+            new = z3.If(v <= a, v, a)
+        st.trace = st.trace + (Event('store', (p.region, p.off, size, st_o), None, {'val': new}),)
+        return v
 
     def h_load(self, ex, st, callee, args, fn):
         if isinstance(args[0], Ref):
@@ -224,6 +250,7 @@ def loop_heads(fn):
         t = stmts[-1]
         succ[bb] = [x for x in re.findall(r'bb\d+', t.split(' -> ', 1)[1] if ' -> ' in t else '') if x not in fn.cleanup]
     heads = set(); color = {}
+    back = {}
     stack = [('bb0', iter(succ.get('bb0', [])))]
     color['bb0'] = 1
     while stack:
@@ -232,14 +259,33 @@ def loop_heads(fn):
             if color.get(nx, 0) == 0:
                 color[nx] = 1; stack.append((nx, iter(succ.get(nx, [])))); break
             if color.get(nx) == 1:
-                heads.add(nx)
+                heads.add(nx); back.setdefault(nx, set()).add(bb)
         else:
             color[bb] = 2; stack.pop()
+    _BACK_EDGES[id(fn)] = back
     return heads, succ
 
 
+_BACK_EDGES = {}
+
+
 def loop_blocks(fn, head, succ):
-    """blocks from which `head` is reachable and that are reachable from `head` (the natural loop, roughly)"""
+    """the natural loop of `head`: the head plus every block that reaches one of its back-edge sources without passing through
+    the head (so a loop nested in an outer loop does not swallow the outer one)"""
+    back = _BACK_EDGES.get(id(fn), {}).get(head)
+    if back:
+        pred = {}
+        for b, ns in succ.items():
+            for n in ns:
+                pred.setdefault(n, []).append(b)
+        body = {head}; work = [t for t in back]
+        while work:
+            b = work.pop()
+            if b in body:
+                continue
+            body.add(b)
+            work.extend(pred.get(b, []))
+        return body
     fwd = set(); work = [head]
     while work:
         b = work.pop()
@@ -277,6 +323,9 @@ def assigned_locals(fn, blocks):
                 continue
             if '*' not in path:
                 out.add(b)
+            # a local that is mutably borrowed inside the loop may be changed through the borrow (e.g. an iterator handed to next())
+            for mb in re.finditer(r'&(?:raw )?mut \(?(_\d+)\b', s[k + 3:]):
+                out.add(mb.group(1))
     return out
 
 
@@ -317,6 +366,10 @@ def symbolic_of_type(ex, ty, name, depth=0):
         parts = [x for x in split_top(ty[1:-1]) if x.strip()]
         vals = [symbolic_of_type(ex, x, name + '_%d' % i, depth + 1) for i, x in enumerate(parts)]
         return None if any(v is None for v in vals) else Struct(vals)
+    m = re.match(r'(?:std::ops::|core::ops::)?Range<(\w+)>$', ty)
+    if m and m.group(1) in INTTY:
+        a = symbolic_of_type(ex, m.group(1), name + '_start', depth + 1); b = symbolic_of_type(ex, m.group(1), name + '_end', depth + 1)
+        return Struct([a, b])
     if re.fullmatch(r'(?:std::time::)?(SystemTime|Instant|Duration)', ty):
         v = z3.Int(tag + '_ns'); ex.side.append(v >= 0); return Struct([v])
     b = base_type_name(ty)
@@ -441,7 +494,10 @@ def loops_of(ex, fn, args, st, watch_mem=()):
                         lo, hi = INTTY[ty]
                         ex.side.append(z3.And(var >= lo, var <= hi))
                 else:
-                    init[l] = None
+                    sv = symbolic_of_type(ex, ty, '%s_%s_%s' % (fn.name.split('::')[-1], head, l)) if ty and v is not None else None
+                    init[l] = sv
+                    if sv is not None:
+                        carried[l] = (sv, ty)
             else:
                 init[l] = v
         st1 = State()
@@ -450,8 +506,39 @@ def loops_of(ex, fn, args, st, watch_mem=()):
                 st1.mem[k] = v
         fr2 = ex.new_frame()
         outs2 = ex.run_body(fn, [], st1, fr=fr2, start=head, stop=tuple(heads), top=True, init_locals=init)
-        res.append(dict(head=head, carried=carried, outs=outs2, frame=fr2))
         for o in outs2:
             if o.kind == 'stop' and o.at not in seen:
                 pending.append((o.at, o, fr2))
+        # a way round this loop may pass through a loop nested in its body: step over the inner loop (its own termination is a
+        # separate obligation) by giving the locals it assigns arbitrary values and following the paths that leave it
+        final = []
+        work = [(o, fr2, 0) for o in outs2]
+        while work:
+            o, ofr, depth = work.pop()
+            if not (o.kind == 'stop' and o.at != head and o.at in body and depth < 3):
+                if ofr != fr2:
+                    # re-home the locals of the continuation frame so that callers find them under this loop's frame
+                    for (f_, l_), v_ in list(o.state.mem.items()):
+                        if f_ == ofr:
+                            o.state.mem[(fr2, l_)] = v_
+                final.append(o)
+                continue
+            inner = o.at
+            inner_assigned = assigned_locals(fn, loop_blocks(fn, inner, succ))
+            init2 = {}
+            for (f_, l_), v_ in o.state.mem.items():
+                if f_ != ofr:
+                    continue
+                if l_ in inner_assigned:
+                    init2[l_] = symbolic_of_type(ex, fn.ltypes.get(l_, ''), '%s_%s_after_%s' % (fn.name.split('::')[-1], l_, inner)) if v_ is not None else None
+                else:
+                    init2[l_] = v_
+            st2 = State(dict((k_, v_) for k_, v_ in o.state.mem.items() if k_[0] != ofr), list(o.state.pc), o.state.trace, {})
+            fr3 = ex.new_frame()
+            cont = ex.run_body(fn, [], st2, fr=fr3, start=inner, stop=tuple(heads), top=True, init_locals=init2)
+            for c in cont:
+                if c.kind == 'stop' and c.at == inner:
+                    continue            # another round of the inner loop: covered by the arbitrary values
+                work.append((c, fr3, depth + 1))
+        res.append(dict(head=head, carried=carried, outs=final, frame=fr2))
     return res
